@@ -57,6 +57,8 @@ type Ctx struct {
 	depCalls  int
 	depNotes  []string
 	wsites    []*writeSite
+	flagStrong map[*ssa.Alloc]bool
+	flagKnown  map[*ssa.Alloc]bool
 
 	Exemptions map[string]string // obligation key -> reason (from exemptions.json)
 
